@@ -161,6 +161,17 @@ pub fn generate(s: &mut Session, tier: &str, rng: &mut Rng) {
                 s.oracle_fail("handshake-socks5", &format!("SOCKS5 CONNECT cut after {} byte(s) not completed exactly: {}", q[0].len(), &r[..r.len().min(100)]));
             }
         }
+        // the greeting cut at every byte as well (nothing may be answered before it is complete)
+        for greeting in [vec![5u8, 1, 0], vec![5, 2, 0, 2]] {
+            for k in 1..greeting.len() {
+                let all = [hex(&greeting[..k]), hex(&greeting[k..]), hex(&request)];
+                let r = s.run(&format!("hs.run socks5 {} split=2 marker={}", all.join(";"), hex(marker)));
+                let want = format!("ok {} reply=050005000001000000000000 rest={}", addr, hex(marker));
+                if r != want {
+                    s.oracle_fail("handshake-socks5", &format!("SOCKS5 greeting cut after {} byte(s): handshake not completed exactly: {}", k, &r[..r.len().min(100)]));
+                }
+            }
+        }
         s.mark_nontrivial();
     }
     // unsupported / malformed whole handshakes: no tunnel
